@@ -801,6 +801,10 @@ class Evaluator:
             args = sorted(set(args), key=_key)
             if len(args) == 1:
                 return args[0]
+        if fname in ("np.mod", "np.remainder", "numpy.mod", "numpy.remainder") and len(args) == 2 and not kws:
+            return self._binop(ast.Mod(), args[0], args[1])
+        if fname in ("np.floor_divide", "numpy.floor_divide") and len(args) == 2 and not kws:
+            return self._binop(ast.FloorDiv(), args[0], args[1])
         if fname in ("int", "float") and len(args) == 1 and not kws and is_num(args[0]):
             return args[0] if fname == "float" or num_value(args[0]).denominator == 1 else ("call", f, tuple(args), ())
         t = ("call", f, tuple(args), tuple(kws))
